@@ -176,9 +176,15 @@ def r04_1_2_attribute(chk):
                 "single-valued-accepts-scalars", "a scalar is not accepted by a single-valued attribute", cv.where)
     # the value setter stores the converter's result
     vs = attr.methods.get("value.setter")
-    ok = vs is not None and any(isinstance(n, ast.Assign) and norm(n.targets[0]) == "self._value"
-                                and isinstance(n.value, ast.Call) and norm(n.value.func).endswith("convert_value")
-                                for n in walk_local(vs.node))
+    ok = False
+    if vs is not None:
+        from ..terms import SELF as _SELF, is_call as _is_call, call_recv as _call_recv
+        vsum = chk.summary(vs)
+        newv = ("param", vs.param_names[1]) if len(vs.param_names) > 1 else None
+        sts = [e for e in vsum.effects if e.kind == "store_attr" and e.base == _SELF]
+        # every store the setter makes into the attribute is the converter's result for the value given
+        ok = bool(sts) and all(_is_call(e.value, cv.name) and _call_recv(e.value) == _SELF and
+                               e.value[2][:1] == (newv,) for e in sts)
     chk.require(ok, "R04.2", "value-setter-goes-through-converter",
                 "Attribute.value can be assigned without passing through convert_value", attr.where)
 
